@@ -1061,6 +1061,24 @@ hwloc__xml_import_object(hwloc_topology_t topology,
      */
   }
 
+  if (!ignored && childrengotignored
+      && obj->memory_first_child && obj->memory_first_child->next_sibling) {
+    /* memory children of ignored normal children were appended to our own memory children,
+     * make sure the list is still ordered by nodeset (non-NULL for memory objects, checked above).
+     */
+    hwloc_obj_t *prev, child, children = obj->memory_first_child;
+    obj->memory_first_child = NULL;
+    while (children) {
+      child = children;
+      children = child->next_sibling;
+      prev = &obj->memory_first_child;
+      while (*prev && hwloc_bitmap_compare_first(child->nodeset, (*prev)->nodeset) >= 0)
+	prev = &((*prev)->next_sibling);
+      child->next_sibling = *prev;
+      *prev = child;
+    }
+  }
+
   return state->global->close_tag(state);
 
  error_with_object:
